@@ -67,3 +67,14 @@ Example C19_dangling_key_is_error : freeze_built 20 [mkNode (RArray 7) None] = E
 Proof. vm_compute. split; reflexivity. Qed.
 Example C19_ok_somewhere : exists r, freeze_built 20 [mkNode (RArray 1) None; mkNode RInt None] = Ok r.
 Proof. vm_compute. eexists. reflexivity. Qed.
+
+(** ** Parsing any TEXT (model/JsonRead.v + Parse.v): the JSON reader is total on every byte string and so is the whole text -> graph
+    function: Ok or Err, nothing else *)
+Require Import JsonRead JsonReadProofs JsonReadSchema JsonReadTotal.
+Theorem C19_json_text_total :
+  forall text : bytes, (exists j : json, json_of_text text = Ok j) \/ json_of_text text = Err EData.
+Proof. exact json_of_text_total. Qed.
+
+Theorem C19_parse_text_total : forall text,
+  match parse_schema_text text with Ok _ | Err _ => True | _ => False end.
+Proof. exact parse_schema_text_total. Qed.
